@@ -47,9 +47,10 @@ def angleCrisp (traces : List Polyline) (minSin2 : Rat) : Bool :=
       | .point p _ _ =>
         -- rays leaving the contact point along each segment
         let rays := fun (a b : Pt) => (if p == a then [] else [a.sub p]) ++ (if p == b then [] else [b.sub p])
-        -- a segment passing THROUGH the contact stays inside the other's buffer on both sides of it:
-        -- twice the length, i.e. four times the bound on sin²
-        let k : Rat := if (rays a b).length == 2 || (rays c d).length == 2 then 4 else 1
+        -- a TRACE passing through the contact (in the middle of a segment or at one of its interior vertices) stays inside
+        -- the other's buffer on both sides of it: the detector measures the whole stretch, so twice the length, i.e. four
+        -- times the bound on sin²
+        let k : Rat := if !(ends ts[i]!).contains p || !(ends ts[j]!).contains p then 4 else 1
         (rays a b).all fun u => (rays c d).all fun v =>
           let cr := Pt.cross u v
           !(decide (Pt.dot u v > 0) && decide (cr * cr < k * minSin2 * (Pt.dot u u) * (Pt.dot v v)))
